@@ -3,13 +3,13 @@ CONSTANTS
   MaxRank = 2
   Variant = "none"
   MaxChain = 2
-  MaxIters = {0, 1, 2}
-  MaxFuns = {1, 2, 4}
+  MaxIters = {0, 1, 2, 3}
+  MaxFuns = {1, 2, 4, 6}
   MaxLss = {1, 2}
   MaxCors = {1, 2}
-  TargetKinds = {"none", "float"}
+  TargetKinds = {"none", "float", "call"}
   GtolKinds = {"float"}
-  CbStops = {0, 2}
+  CbStops = {0, 1, 2}
   Upds = {"none"}
   Scalers = {FALSE}
   Envs = {"any"}
